@@ -124,10 +124,22 @@ fn finish<T>(
 
 /// one validation step directly on a source
 fn run_one(keyed: bool, m: i64, hc: bool, exec: &Exec, rows: &Value) -> Value {
+    let coll = Arc::new(Mutex::new(ErrorCollector::new()));
+    run_shared(keyed, m, hc, exec, rows, &coll)
+}
+
+/// the same, on a collector owned by the caller (it may already hold entries of earlier runs)
+fn run_shared(
+    keyed: bool,
+    m: i64,
+    hc: bool,
+    exec: &Exec,
+    rows: &Value,
+    coll: &Arc<Mutex<ErrorCollector>>,
+) -> Value {
     let Some(mode) = mode_of(m) else { return json!(["invalid"]) };
     let Some(arr) = rows.as_array() else { return json!(["invalid"]) };
-    let coll = Arc::new(Mutex::new(ErrorCollector::new()));
-    let given = if hc { Some(Arc::clone(&coll)) } else { None };
+    let given = if hc { Some(Arc::clone(coll)) } else { None };
     if keyed {
         let mut data: Vec<(i64, Rec)> = Vec::new();
         for r in arr {
@@ -159,7 +171,7 @@ fn run_one(keyed: bool, m: i64, hc: bool, exec: &Exec, rows: &Value) -> Value {
                 Exec::Par(t, n) => v.collect_par(Some(*t), Some(*n)),
             }
         }));
-        finish(res, &coll, |kv: &(i64, Rec)| json!([kv.0, kv.1.0]))
+        finish(res, coll, |kv: &(i64, Rec)| json!([kv.0, kv.1.0]))
     } else {
         let mut data: Vec<Rec> = Vec::new();
         for r in arr {
@@ -190,7 +202,7 @@ fn run_one(keyed: bool, m: i64, hc: bool, exec: &Exec, rows: &Value) -> Value {
                 Exec::Par(t, n) => v.collect_par(Some(*t), Some(*n)),
             }
         }));
-        finish(res, &coll, |r: &Rec| json!(r.0))
+        finish(res, coll, |r: &Rec| json!(r.0))
     }
 }
 
@@ -329,6 +341,55 @@ fn run(kind: &str, input: &Value) -> Value {
                 return json!(["invalid"]);
             }
             run_one(keyed, m, hc, &exec, rows)
+        }
+        "multi" => {
+            // in = [keyed, threads, steps]; step = [mode, has_collector, exec, partitions, rows]
+            // (a run on the SHARED collector) | [9] (ErrorCollector::clear()).
+            // out = per step ["ok", rows, entries, count] | ["panic", entries, count] |
+            //       ["err", entries, count] | ["clear", entries, count]: the collector content
+            //       is read back after EVERY step.
+            let (Some(keyed), Some(th), Some(steps)) =
+                (bit(0), int(1), input.get(2).and_then(Value::as_array))
+            else {
+                return json!(["invalid"]);
+            };
+            if input.as_array().map(Vec::len) != Some(3) {
+                return json!(["invalid"]);
+            }
+            let coll = Arc::new(Mutex::new(ErrorCollector::new()));
+            let mut out = Vec::new();
+            for st in steps {
+                let Some(a) = st.as_array() else { return json!(["invalid"]) };
+                if a.len() == 1 && a[0].as_i64() == Some(9) {
+                    coll.lock().unwrap_or_else(std::sync::PoisonError::into_inner).clear();
+                    let (entries, count) = collector_json(&coll);
+                    out.push(json!(["clear", entries, count]));
+                    continue;
+                }
+                if a.len() != 5 {
+                    return json!(["invalid"]);
+                }
+                let hc = match a[1].as_i64() {
+                    Some(0) => false,
+                    Some(1) => true,
+                    _ => return json!(["invalid"]),
+                };
+                let (Some(md), Some(ex), Some(parts)) = (a[0].as_i64(), a[2].as_i64(), a[3].as_i64())
+                else {
+                    return json!(["invalid"]);
+                };
+                let Some(exec) = exec_of(ex, th, parts) else { return json!(["invalid"]) };
+                let v = run_shared(keyed, md, hc, &exec, &a[4], &coll);
+                match v[0].as_str() {
+                    Some("ok") => out.push(v),
+                    Some(tag @ ("panic" | "err")) => {
+                        let (entries, count) = collector_json(&coll);
+                        out.push(json!([tag, entries, count]));
+                    }
+                    _ => return json!(["invalid"]),
+                }
+            }
+            Value::Array(out)
         }
         "big" => {
             // in = [keyed, mode, has_collector, exec, threads, partitions, n, m, t, runs]
@@ -498,6 +559,9 @@ mod mutant {
     ) -> Vec<T> {
         let mut valid = Vec::new();
         let n = elements.len();
+        // mutant 16: the lock is taken ONCE per partition with lock().ok(); a fail-fast panic then
+        // unwinds holding the guard and poisons the mutex, after which nothing is ever recorded
+        let mut guard = if mu == 16 { collector.and_then(|c| c.lock().ok()) } else { None };
         for (idx, elem) in elements.into_iter().enumerate() {
             match value(&elem).validate() {
                 Ok(()) => {
@@ -519,6 +583,11 @@ mod mutant {
                     };
                     match mode {
                         ValidationMode::SkipInvalid => {}
+                        ValidationMode::LogAndContinue if mu == 16 => {
+                            if let Some(g) = guard.as_mut() {
+                                g.add_error(Some(format!("{prefix}{idx}")), errors);
+                            }
+                        }
                         ValidationMode::LogAndContinue => {
                             if mu == 3 && idx + 1 == n {
                                 continue; // the last record of a partition is never logged
@@ -797,6 +866,48 @@ fn generate(seed: u64, tier: Tier, em: &mut Emitter) {
         }
     }
 
+    // 2c. several runs sharing ONE collector (state that must survive a failed run): the collector
+    // is read back after every step
+    {
+        // a step's records: 7 records from uid base, invalid at the positions of `bad`
+        let step = |keyed: bool, md: i64, hc: i64, ex: i64, parts: i64, base: i64, bad: &[u8]| {
+            json!([md, hc, ex, parts, rows_of(keyed, bad, base)])
+        };
+        let mixed: [u8; 7] = [0, 2, 0, 1, 3, 0, 1]; // 4 invalid records
+        let valid: [u8; 7] = [0; 7];
+        let other: [u8; 7] = [1, 0, 0, 4, 0, 2, 0]; // 3 invalid, one without errors
+        for keyed in [false, true] {
+            // (exec, partitions) of the 1st, 2nd, 3rd run
+            for plan in [[(0, 0); 3], [(1, 3); 3], [(1, 2), (0, 0), (1, 7)], [(0, 0), (1, 4), (0, 0)]] {
+                for same_rows in [false, true] {
+                    let b = |j: i64| if same_rows { 0 } else { 100 * j };
+                    let run = |j: usize, md: i64, hc: i64, bad: &[u8]| {
+                        step(keyed, md, hc, plan[j % 3].0, plan[j % 3].1, b(j as i64), bad)
+                    };
+                    let seqs: Vec<(Vec<Value>, &str)> = vec![
+                        (vec![run(0, 2, 1, &mixed), run(1, 1, 1, &mixed)], "failfast-panic,log"),
+                        (vec![run(0, 1, 1, &other), run(1, 2, 1, &mixed), run(2, 1, 1, &mixed)],
+                         "log,failfast-panic,log"),
+                        (vec![run(0, 0, 1, &mixed), run(1, 1, 1, &mixed)], "skip,log"),
+                        (vec![run(0, 2, 1, &valid), run(1, 1, 1, &mixed)], "failfast-ok,log"),
+                        (vec![run(0, 1, 1, &mixed), run(1, 1, 1, &other)], "log,log"),
+                        (vec![run(0, 1, 1, &mixed), json!([9]), run(1, 1, 1, &other)], "log,clear,log"),
+                        (vec![run(0, 2, 1, &mixed), json!([9]), run(1, 1, 1, &mixed)],
+                         "failfast-panic,clear,log"),
+                        (vec![run(0, 1, 0, &mixed), run(1, 2, 0, &mixed), run(2, 1, 1, &other)],
+                         "log-nocollector,failfast-nocollector,log"),
+                        (vec![run(0, 2, 1, &mixed), run(1, 2, 1, &other), run(2, 1, 1, &mixed),
+                              run(3, 0, 1, &other), run(4, 1, 1, &other)],
+                         "failfast,failfast,log,skip,log"),
+                    ];
+                    for (steps, tag) in seqs {
+                        em.case("multi", json!([i64::from(keyed), 2, steps]), true, &["multi", tag]);
+                    }
+                }
+            }
+        }
+    }
+
     // 3. combine_validations: every list of <= 4 parts over {Ok, Err[], Err[1], Err[2,3]}
     let alphabet = [json!(null), json!([]), json!([1]), json!([2, 3])];
     let mut level: Vec<Vec<Value>> = vec![vec![]];
@@ -932,6 +1043,32 @@ fn generate(seed: u64, tier: Tier, em: &mut Emitter) {
             nsteps >= 2 && len >= 2,
             &["pipe", "random"],
         );
+    }
+    // random sequences of 2..5 steps on one collector
+    let n_multi = if thorough { 4000 } else { 300 };
+    for _ in 0..n_multi {
+        let keyed = rng.chance(1, 2);
+        let nsteps = rng.range(2, 5);
+        let mut runs = 0;
+        let steps: Vec<Value> = (0..nsteps)
+            .map(|j| {
+                if j > 0 && rng.chance(1, 8) {
+                    return json!([9]);
+                }
+                runs += 1;
+                let len = rng.below(10) as usize;
+                let density = *rng.pick(&[0u64, 3, 7]);
+                let bad: Vec<u8> = (0..len)
+                    .map(|_| if rng.below(10) < density { 1 + rng.below(4) as u8 } else { 0 })
+                    .collect();
+                let md = *rng.pick(&[1i64, 1, 2, 2, 0]);
+                let hc = i64::from(rng.chance(5, 6));
+                let ex = i64::from(rng.chance(1, 2));
+                let base = if rng.chance(1, 4) { 0 } else { 50 * j };
+                json!([md, hc, ex, rng.below(len as u64 + 3) as i64, rows_of(keyed, &bad, base)])
+            })
+            .collect();
+        em.case("multi", json!([i64::from(keyed), rng.range(1, 4), steps]), runs >= 2, &["multi", "random"]);
     }
     let n_comb = if thorough { 3000 } else { 300 };
     for _ in 0..n_comb {
